@@ -22,15 +22,7 @@ EXTENDS Journal, Json
 
 CONSTANTS Family, MaxEntries, WithLex
 
-(* ---- baseline ------------------------------------------------------------------------------- *)
-D(y, m, d) == [y |-> y, m |-> m, d |-> d, sep |-> "-", pad |-> TRUE]
-Amt(m, sc, comm) == [neg |-> FALSE, m |-> m, sc |-> sc, n |-> "point", comm |-> comm, side |-> "R", sp |-> TRUE, sgn |-> "before", plus |-> FALSE]
-Post(acct, amt) == [ind |-> 4, st |-> "", kind |-> "real", acct |-> acct, gap |-> 2, amt |-> amt, cost |-> <<>>, asrt |-> <<>>, cmt |-> <<>>]
-NoCmt == <<>>
-Cmt(free, tags) == <<[free |-> free, tags |-> tags]>>
-Tx(date, desc, posts) == [date |-> date, date2 |-> <<>>, st |-> "", code |-> 0, desc |-> desc, hgap |-> 2, cmt |-> NoCmt, posts |-> posts]
-Text(i) == [kind |-> "text", i |-> i, j |-> 1]
-
+(* ---- baseline (the choice-record helpers D, Amt, Post, Cmt, Tx, Text live in Journal.tla) ----- *)
 BaseTx == Tx(D(2024, 1, 15), Text(1), << Post(3, <<Amt(1050, 2, 4)>>), Post(2, <<>>) >>)
 
 (* ---- value menus ---------------------------------------------------------------------------- *)
